@@ -35,3 +35,27 @@ pub mod c09;
 pub mod c09gen {
     include!("gen/c09_list.rs");
 }
+#[cfg(all(kani, feature = "c01"))]
+pub mod c01;
+#[cfg(all(kani, feature = "c01"))]
+pub mod c01gen {
+    include!("gen/c01_list.rs");
+}
+#[cfg(all(kani, feature = "c14"))]
+pub mod c14;
+#[cfg(all(kani, feature = "c17"))]
+pub mod c17;
+#[cfg(all(kani, feature = "c10"))]
+pub mod c10;
+#[cfg(all(kani, feature = "c10"))]
+pub mod c10gen {
+    include!("gen/c10_list.rs");
+}
+#[cfg(all(kani, feature = "c12"))]
+pub mod c12;
+#[cfg(all(kani, feature = "c16"))]
+pub mod c16;
+#[cfg(all(kani, feature = "c15"))]
+pub mod c15gen {
+    include!("gen/c15_list.rs");
+}
